@@ -33,6 +33,7 @@ type Program struct {
 	funcOf  map[*ast.FuncDecl]*packages.Package
 	ssa     *ssaProgram
 	sums    *Summaries
+	gram    *grammar
 }
 
 // CheckerError is a failure of the checker itself (exit 2), not a verdict.
